@@ -193,6 +193,14 @@ def check(ctx):
         u = m_call(rt, name='unwrap') or m_call(rt, name='expect')
         v = u[0] if u else rt
         a = m_call(v, name='encrypt_subject', self_suffix='Envelope')
+        if a is None:
+            # the same composition one delegation further down: encrypt_subject(x, k) = encrypt_subject_opt(x, k, None)
+            a2 = m_call(v, name='encrypt_subject_opt', self_suffix='Envelope')
+            es = F.method1('Envelope', 'encrypt_subject')
+            if a2 is not None and len(a2) == 3 and strip_sites(a2[2])[0] == 'agg' and strip_sites(a2[2])[2] == 'None' and es is not None:
+                want_ = expected_call(F, 'encrypt_subject_opt', P1, P2, NONE)
+                if want_ is not None and same_mod_inline(F, TermBuilder(F, es).return_term(), want_):
+                    a = (a2[0], a2[1])
         w = (m_call(a[0], name='wrap_envelope', self_suffix='Envelope') or m_call(a[0], name='new_wrapped')) if a else None
         if w is not None and w[0] == P1 and a[1] == P2:
             ctx.ok('C08.5', ctx.site(en), 'encrypt = encrypt_subject(wrap(self), key)', sample=fmt(rt))
